@@ -95,6 +95,10 @@ def own_c04(tier, seed, params):
                 out.append("op=fold form=%s n=%d fault=%s" % (fm, n, ft))
             for fa, fb in ZIP_FORMS:
                 out.append("op=zip form=%s form2=%s n=%d fault=%s" % (fa, fb, n, ft))
+                if n <= 5 or tier == "thorough":
+                    # mixed drop-ness selects the needs_drop branches
+                    out.append("op=zip form=%s form2=%s n=%d kind=tr kind2=pl fault=%s" % (fa, fb, n, ft))
+                    out.append("op=zip form=%s form2=%s n=%d kind=pl kind2=tr fault=%s" % (fa, fb, n, ft))
         for ft in ["none"] + ["clone:%d" % k for k in fault_points(n, n, tier)]:
             out.append("op=clone n=%d fault=%s" % (n, ft))
         # by-value iterator: clone / fold / rfold from several positions
@@ -167,4 +171,20 @@ def own_c07(tier, seed, params):
         hi = rng.choice(["none", "none", str(n), str(rng.randint(0, n + 3))])
         out.append("op=collect n=%d boxed=%d try=%d hint=%d,%s script=%s fault=%s" % (
             n, rng.randint(0, 1), rng.randint(0, 1), lo, hi, script, rng.choice(["none", "none", "poll:%d" % rng.randint(0, n + 1)])))
+    return out
+
+
+def own_c08(tier, seed, params):
+    out = []
+    for n in OWN_LENS:
+        out.append("op=generate n=%d fault=none" % n)
+        out.append("op=default n=%d fault=none" % n)
+        for kind in ("tr", "pl"):
+            out.append("op=clone n=%d kind=%s fault=none" % (n, kind))
+            for fm in "ormb":
+                out.append("op=map form=%s n=%d kind=%s fault=none" % (fm, n, kind))
+                out.append("op=fold form=%s n=%d kind=%s fault=none" % (fm, n, kind))
+            for kind2 in ("tr", "pl"):
+                for fa, fb in ZIP_FORMS:
+                    out.append("op=zip form=%s form2=%s n=%d kind=%s kind2=%s fault=none" % (fa, fb, n, kind, kind2))
     return out
